@@ -794,6 +794,8 @@ func (t *thread) shiftScript() {
 	t.scriptOff = 0
 	t.scriptIdx++
 	t.earlyReturnAfterGenesis = false
+	// a code separator position belongs to the script it was executed in
+	t.lastCodeSep = 0
 }
 
 func (t *thread) beforeExecute() {
